@@ -502,7 +502,9 @@ func (s *JavaFullListener) EnterMethodCall(ctx *parser.MethodCallContext) {
 	if targetCtx.GetChild(0) != nil {
 		switch x := targetCtx.GetChild(0).(type) {
 		case *parser.MethodCallContext:
-			targetType = x.Identifier().GetText()
+			if x.Identifier() != nil {
+				targetType = x.Identifier().GetText()
+			}
 		}
 	}
 
